@@ -71,6 +71,70 @@ pub fn setup(seed: u64, phase: Phase) -> Setup {
     }
 }
 
+pub const HISTORIES: usize = 5;
+
+/// Running states that only a connection history reaches (the same Context connected twice).
+pub fn setup_history(seed: u64, h: usize) -> Setup {
+    let mut sim = Sim::new(seed);
+    let (sei, r1): (Option<u32>, Option<u16>) = match h {
+        0 | 1 => (Some(3600), None),
+        2 => (Some(3600), Some(3)),
+        3 => (None, None),
+        _ => (Some(0), None),
+    };
+    sim.cmd(Cmd::Connect(ConnSpec { sei, ..Default::default() }));
+    sim.settle();
+    sim.feed_packet(&SPacket::Connack { session_present: false, reason: 0, props: r1.map(|r| vec![Prop::u16(33, r)]).unwrap_or_default() });
+    sim.settle();
+    sim.cmd(Cmd::Run);
+    sim.settle();
+    let s = sim.start_op(0, OpSpec::Subscribe(SubSpec::simple("a/#")));
+    sim.settle();
+    sim.feed_packet(&SPacket::Suback { id: 1, props: vec![], reasons: vec![0] });
+    sim.settle();
+    let stream = sim.take_stream(s);
+    if h == 1 || h == 2 || h == 4 {
+        // identifiers 2, 3, 4: QoS 1 unacknowledged, QoS 2 before PUBREC, QoS 2 before PUBCOMP
+        sim.start_op(0, OpSpec::Publish(PubSpec::simple(1, "t", b"1")));
+        sim.start_op(0, OpSpec::Publish(PubSpec::simple(2, "t", b"2")));
+        sim.start_op(0, OpSpec::Publish(PubSpec::simple(2, "t", b"3")));
+        sim.settle();
+        sim.feed_packet(&SPacket::Ack { kind: AckKind::Pubrec, id: 4, reason: 0, props: vec![], form: AckForm::Short2 });
+        sim.settle();
+        // an inbound QoS 2 message awaiting its PUBREL
+        sim.feed_packet(&SPacket::Publish(rc::Publish { dup: false, qos: 2, retain: false, topic: "a/x".into(), id: Some(9), props: vec![Prop::var(11, 1)], payload: b"in".to_vec() }));
+        sim.settle();
+    }
+    if h == 3 {
+        sim.feed_packet(&SPacket::Disconnect { reason: 0x8b, props: vec![], form: 1 });
+    } else {
+        sim.set_eof();
+    }
+    sim.settle();
+    if h != 3 {
+        sim.cmd(Cmd::MarkDisconnected(if h == 4 { 100 } else { 1 }));
+    }
+    sim.new_transport();
+    sim.cmd(Cmd::Connect(ConnSpec { sei, ..Default::default() }));
+    sim.settle();
+    let props2 = match h {
+        0 | 1 => vec![Prop::u16(33, 2), Prop::u32(39, 500)],
+        2 => vec![],
+        3 => vec![],
+        _ => vec![Prop::u16(33, 1)],
+    };
+    sim.feed_packet(&SPacket::Connack { session_present: h <= 2, reason: 0, props: props2 });
+    sim.settle();
+    sim.cmd(Cmd::Run);
+    sim.settle();
+    if h == 3 || h == 4 {
+        sim.start_op(0, OpSpec::Publish(PubSpec::simple(1, "t", b"n")));
+        sim.start_op(0, OpSpec::Ping);
+        sim.settle();
+    }
+    Setup { sim, call: "run", stream }
+}
+
 pub enum Fault {
     Eof,
     ReadErr,
@@ -519,6 +583,53 @@ pub fn run(rep: &mut Rep) {
         }
         if let Some(s) = sim.stalled() {
             rep.violation("C04/wedge/stalled-with-unread-input/phase=write-fault", &id, &format!("{s}\n{}", sim.tail_log(20)));
+        }
+    }
+    // (e) states reached through a connection history: the same Context connected a second time
+    let nh = HISTORIES;
+    let seqs = if rep.quick() { 120 } else { 1500 };
+    rep.note(&format!("(e) {nh} connection histories (session resumed idle / with three unfinished handshakes under a smaller Receive Maximum / with a larger one; plain second connection after a server DISCONNECT; expired session with abandoned operations): every corpus packet delivered whole and doubled, plus {seqs} PRNG sequences of 8 corpus packets per history, each followed by end-of-stream"));
+    for h in 0..nh {
+        for (ci, (name, bytes)) in corp.iter().enumerate() {
+            for dbl in 0..2 {
+                let id = format!("hist:{h}:{ci}:{dbl}");
+                idx += 1;
+                if !rep.take(idx, &id) {
+                    continue;
+                }
+                let mut su = setup_history(rep.seed, h);
+                let b = if dbl == 1 { [bytes.clone(), bytes.clone()].concat() } else { bytes.clone() };
+                let o = drive(&mut su, &b, None, Fault::Eof);
+                rep.add("evaluations", 1);
+                rep.add("history_state_cases", 1);
+                rep.distinct(&("hist", h, ci, dbl));
+                judge(rep, &id, Phase::Running, &format!("history {h}, packet {name}{}", if dbl == 1 { " twice" } else { "" }), &b, &su, &o);
+            }
+        }
+        for k in 0..seqs {
+            let id = format!("histseq:{h}:{k}");
+            idx += 1;
+            if !rep.take(idx, &id) {
+                continue;
+            }
+            let mut rng = Rng::new(rep.seed.wrapping_mul(0x9e37).wrapping_add(h as u64 * 100_000 + k as u64));
+            let mut b = Vec::new();
+            let mut names = Vec::new();
+            for _ in 0..8 {
+                let (n, bytes) = &corp[rng.below(corp.len())];
+                // packets that end run() by design would cut most sequences short: take them rarely
+                if (n.starts_with("connack") || n.starts_with("auth") || n.starts_with("disconnect") || n.starts_with("c-") || n.starts_with("bad")) && !rng.chance(1, 8) {
+                    continue;
+                }
+                names.push(n.clone());
+                b.extend_from_slice(bytes);
+            }
+            let mut su = setup_history(rep.seed, h);
+            let o = drive(&mut su, &b, None, if k % 2 == 0 { Fault::Eof } else { Fault::ReadErr });
+            rep.add("evaluations", 1);
+            rep.add("history_state_sequences", 1);
+            rep.distinct(&("histseq", h, &names));
+            judge(rep, &id, Phase::Running, &format!("history {h}, packets {:?}", names), &b, &su, &o);
         }
     }
 }
